@@ -483,7 +483,17 @@ func runC11(c *Ctx) {
 				lcore = zapcore.NewTee(c11accept{}, core)
 			}
 			lg := zap.New(lcore, zap.WithClock(c11fixed{e.t}), zap.WithPanicHook(c06quiet{}), zap.WithFatalHook(c06quiet{})).Named(fmt.Sprint(e.id))
-			lg.Log(e.lvl, c11msgs[e.msg])
+			// plain and sugared calls alike: the entry's message is the rendered text
+			switch m := c11msgs[e.msg]; e.id % 5 {
+			case 2:
+				lg.Sugar().Logf(e.lvl, "%s", m)
+			case 3:
+				lg.Sugar().Logf(e.lvl, "%s%s", m[:len(m)/2], m[len(m)/2:])
+			case 4:
+				lg.Sugar().Logw(e.lvl, m)
+			default:
+				lg.Log(e.lvl, m)
+			}
 			return
 		}
 		ent := zapcore.Entry{Level: e.lvl, Message: c11msgs[e.msg], Time: e.t, LoggerName: fmt.Sprint(e.id)}
